@@ -53,4 +53,14 @@ Theorem C18_reference_forms : forall get, expand 3 [36; 36]%N get = [36]%N /\ ex
 Proof. exact expand_forms. Qed.
 Example C18_expand_example : re_replace_x 1 (RSeq (RGroup 1 (RChar 97)) (RGroup 2 (RChar 98))) [120;97;98;121]%N [36;50;36;49;36;36;36;123;48;125]%N 0 = [120;98;97;36;97;98;121]%N.
 Proof. vm_compute. reflexivity. Qed.
+(* positions: every span the engine reports is ordered and inside the text (invariant of the continuation-passing matcher, by induction on its fuel, for every pattern AST);
+   hence replacing each match by `$0` - the match itself - gives the text back, whatever the pattern, the limit and the fuel scale *)
+Require Import RegexZero.
+Theorem C18_spans_ordered_in_text : forall k r s, ordered 0 (length s) (spans_c k r s) /\ map span_of (spans_c k r s) = spans k r s.
+Proof. exact spans_ordered. Qed.
+Theorem C18_dollar_zero_is_identity : forall k r s limit, re_replace_x k r s [36; 48]%N limit = s.
+Proof. exact replace_x_zero. Qed.
+Example C18_dollar_zero_example : spans_c 1 (RStar (RChar 97)) [97;97;98;97]%N <> [] /\ re_replace_x 1 (RStar (RChar 97)) [97;97;98;97]%N [36; 48]%N 2 = [97;97;98;97]%N.
+Proof. split; [vm_compute; discriminate | vm_compute; reflexivity]. Qed.
 Print Assumptions C18_plain_replacement_is_not_expanded.
+Print Assumptions C18_dollar_zero_is_identity.
